@@ -25,7 +25,17 @@ var (
 	adminFail bool     // the probe admin.api module fails to provision during this operation
 	caseNonce int      // makes pool / writer keys of different cases distinct
 	mpool     = caddy.NewUsagePool()
+	ctxByCid  = map[int]caddy.Context{} // the context handed to the first probe module of every context number
 )
+
+// noteCtx remembers the caddy.Context of configuration number cid (to check later that it was cancelled).
+func noteCtx(cid int, ctx caddy.Context) {
+	mu.Lock()
+	if _, ok := ctxByCid[cid]; !ok {
+		ctxByCid[cid] = ctx
+	}
+	mu.Unlock()
+}
 
 func logEv(kind string, cid, app, idx int) {
 	mu.Lock()
@@ -79,10 +89,11 @@ type probeCore struct {
 	nonce int
 }
 
-func (p *probeCore) Provision(caddy.Context) error {
+func (p *probeCore) Provision(ctx caddy.Context) error {
 	mu.Lock()
 	p.cid, p.nonce = curOp, caseNonce
 	mu.Unlock()
+	noteCtx(p.cid, ctx)
 	if p.App == 3 {
 		logOrd("P3")
 	}
@@ -150,6 +161,7 @@ func (a ProbeApp) CaddyModule() caddy.ModuleInfo {
 func (a *ProbeApp) Provision(ctx caddy.Context) error {
 	a.cid = curOpNo()
 	a.ctx = ctx
+	noteCtx(a.cid, ctx)
 	logOrd("P" + strconv.Itoa(a.n))
 	logEv("p", a.cid, a.n, 0)
 	if a.ModsRaw != nil {
@@ -253,10 +265,11 @@ func (ProbeWriter) CaddyModule() caddy.ModuleInfo {
 	return caddy.ModuleInfo{ID: "caddy.logging.writers.verif_probe", New: func() caddy.Module { return new(ProbeWriter) }}
 }
 
-func (w *ProbeWriter) Provision(caddy.Context) error {
+func (w *ProbeWriter) Provision(ctx caddy.Context) error {
 	mu.Lock()
 	w.cid, w.nonce = curOp, caseNonce
 	mu.Unlock()
+	noteCtx(w.cid, ctx)
 	logEv("p", w.cid, 100, w.Idx)
 	if w.Fail == "provision" {
 		return errors.New("probe writer: provision fault")
